@@ -6,7 +6,7 @@ CONSTANTS
   Fix7 = TRUE
   Fix8 = TRUE
   OneShotLate = FALSE
-  Masks <- RMasks
+  Masks <- OnlyR
   OpKinds <- OpsAll
   MaxOps = 2
   MaxPass = 2
